@@ -189,6 +189,8 @@ def run_corpus(ctx):
                 bad = "must be refused as a spec error, the end is %r" % (a["outcome"],)
         elif acc != exp:
             bad = "must be %s, the end is %r" % ("accepted" if exp else "rejected", a["outcome"])
+        if not bad and e.get("expect_sbu") is not None and a["sbu"] != e["expect_sbu"]:
+            bad = "must leave the SetByUser flags %r, they are %r" % (e["expect_sbu"], a["sbu"])
         if bad:
             ctx.violation("corpus", "defect %s is back (%s): spec %r env %r argv %r %s"
                           % (e["id"], e["note"], c["root"]["spec"], c["env"], c["argv"], bad), case=c)
